@@ -184,7 +184,7 @@ pub fn scen_retry(cfg: &Config, info: &ScenInfo) -> Option<(usize, Option<Durati
 
 pub fn is_serial(cfg: &Config, info: &ScenInfo) -> bool {
     if cfg.custom_which {
-        info.has_tag("solo")
+        info.has_tag("solo") || info.own_steps == 3
     } else {
         info.has_tag("serial")
     }
